@@ -333,10 +333,15 @@ func renamings(syms *symbolNodes, sqlIdents []string, level int, legal map[strin
 	}
 	single := pool
 	if level == 0 {
-		// three-feature queries: one generated name of each of the first three prefix families of this query's SQL
-		single = sub
-		if len(single) > 3 {
-			single = single[:3]
+		// three-feature queries: one generated name of up to four prefix families of this query's SQL
+		// (families that bind values - i<N>, n<N>, e<N>, path composites - before frame names)
+		single = nil
+		for _, fam := range []string{"i<N>", "n<N>", "e<N>", "pc<N>", "ep<N>", "s<N>", "pi<N>"} {
+			for _, n := range sub {
+				if family(n) == fam && len(single) < 4 {
+					single = append(single, n)
+				}
+			}
 		}
 	}
 	// 1. one symbol at a time -> every pool name
@@ -355,7 +360,7 @@ func renamings(syms *symbolNodes, sqlIdents []string, level int, legal map[strin
 		}
 		// cross-namespace: the parameter takes the name of each variable (the variable keeps its name)
 		for _, v := range syms.Vars {
-			if v != p {
+			if v != p && !contains(syms.Params, v) {
 				out = append(out, renaming{Params: map[string]string{p: v}})
 			}
 		}
@@ -481,7 +486,7 @@ func main() {
 	if run.Tier == core.Thorough {
 		plans = []plan{{2, 2}, {3, 0}}
 	}
-	run.Set("rule", "for every enumerated / corpus query (translatable or rejected) and every renaming rho of its Variable and Parameter symbols in: {all symbols -> fresh names; each single symbol -> each name of (identifiers of the query's own SQL + translator-internal pool + fresh); each parameter -> each variable's name and vice versa; permutations of the query's own variables; all injective maps of <= 2 (quick) / <= 3 (thorough) variables into a 6-name sub-pool holding one generated name per prefix family used by the query's SQL, parameters mapped onto the same names; thorough: every variable pair into all ordered pairs of an 8-name pool (k=2) and single-symbol renamings into three names of the sub-pool (k=3)}: translate rho(q) and compare token sequences")
+	run.Set("rule", "for every enumerated / corpus query (translatable or rejected) and every renaming rho of its Variable and Parameter symbols in: {all symbols -> fresh names; each single symbol -> each name of (identifiers of the query's own SQL + translator-internal pool + fresh); each parameter -> each variable's name and vice versa; permutations of the query's own variables; all injective maps of <= 2 (quick) / <= 3 (thorough) variables into a 6-name sub-pool holding one generated name per prefix family used by the query's SQL, parameters mapped onto the same names; thorough: every variable pair into all ordered pairs of an 8-name pool (k=2) and single-symbol renamings into up to four generated names of the query's own SQL (k=3)}: translate rho(q) and compare token sequences")
 	var (
 		mu          sync.Mutex
 		evals       int64
